@@ -260,6 +260,8 @@ func GenDispatchProgram(t *rapid.T, prof DispatchProfile) *Program {
 			st := Step{Op: "publish", Batch: rapid.IntRange(0, 1).Draw(t, "route"), Pad: rapid.IntRange(0, 3).Draw(t, "extra") == 0}
 			if rapid.IntRange(0, 3).Draw(t, "lowerhdr") == 2 {
 				st.Reason = "lower"
+			} else if rapid.IntRange(0, 5).Draw(t, "orphan") == 3 {
+				st.Reason = "orphan"
 			}
 			p.Steps = append(p.Steps, st)
 		case k < 13:
